@@ -270,7 +270,9 @@ def _diag_lines(r):
         s = l.strip()
         if not s:
             continue
-        if s.startswith("==") and "Sanitizer" in s:
+        if s.startswith("==") and ("Sanitizer" in s or not s.strip("=")):
+            continue
+        if re.match(r"#\d+ 0x", s):
             continue
         if s.startswith("VERIF") or s.startswith("NLVGDB") or s.startswith("AddressSanitizer") or s.startswith("UndefinedBehaviorSanitizer"):
             continue
@@ -299,24 +301,24 @@ def _signame(n):
         return "SIG%d" % n
 
 
-def _run_flavor(cfg, flavor, src, out, cpu):
+def _run_flavor(cfg, flavor, src, out, cpu, asan_stack_mb=1024):
     try:
         os.unlink(out)
     except OSError:
         pass
     if flavor == "asan":
         return sh([cfg["asan"], src, "--emit-nvm", "-o", out], cwd=cfg["root"], env={"TMPDIR": cfg["tmp"]},
-                  san=True, cpu=cpu, stack_mb=1024, max_out=32 << 20)
+                  san=True, cpu=cpu, stack_mb=asan_stack_mb, max_out=32 << 20)
     return sh([cfg["plain"], src, "--emit-nvm", "-o", out], cwd=cfg["root"], env={"TMPDIR": cfg["tmp"]},
               cpu=cpu, stack_mb=8, as_mb=PLAIN_AS_MB, max_out=32 << 20)
 
 
-def _one_flavor(cfg, flavor, src, out, cpu, big):
+def _one_flavor(cfg, flavor, src, out, cpu, big, asan_stack_mb=1024):
     """-> (outcome class, provisional key or None, Result).  Outcome classes: accept diagnosed no-progress sanitizer
     stack-overflow signal exit-other budget-cpu budget-rss exit1-silent accept-no-output watchdog large-input-over-budget"""
-    r = _run_flavor(cfg, flavor, src, out, cpu)
+    r = _run_flavor(cfg, flavor, src, out, cpu, asan_stack_mb)
     if r.timeout:
-        r = _run_flavor(cfg, flavor, src, out, cpu)
+        r = _run_flavor(cfg, flavor, src, out, cpu, asan_stack_mb)
         if r.timeout:
             return "watchdog", None, r
     err = r.errtext()
@@ -413,7 +415,10 @@ def _oracle(cfg, data, src, out, want_reject, label):
     if op == "budget-cpu":
         oa, ka, ra = "skipped", None, rp
     else:
-        oa, ka, ra = _one_flavor(cfg, "asan", src, out, cpu, big)
+        # when the plain build already died of unbounded recursion, a 1 GiB stack only makes the asan run slow
+        pre_sp, pre_fault = int((gd or {}).get("sp", -1)), int((gd or {}).get("fault", -2))
+        plain_overflow = plain_signal and rp.sig == signal.SIGSEGV and pre_sp > 0 and abs(pre_fault - pre_sp) < (1 << 20)
+        oa, ka, ra = _one_flavor(cfg, "asan", src, out, cpu, big, 64 if plain_overflow else 1024)
         if oa == "budget-cpu":
             r2 = _run_flavor(cfg, "asan", src, out, cpu)
             if r2.cpu_exceeded:
@@ -927,7 +932,14 @@ def replay(ctx, path):
         cfg["work"] = os.path.join(cfg["wroot"], "replay")
         cfg["tmp"] = os.path.join(cfg["work"], "tmp")
         os.makedirs(cfg["tmp"])
-        rec = oracle(cfg, data)
+        extra = None
+        sib = os.path.join(path, "siblings") if os.path.isdir(path) else os.path.dirname(os.path.abspath(p))
+        if os.path.isdir(path) and os.path.isdir(sib):
+            extra = {n: open(os.path.join(sib, n), "rb").read() for n in sorted(os.listdir(sib))}
+        elif not os.path.isdir(path) and os.path.basename(p) == "i.nano":
+            extra = {n: open(os.path.join(sib, n), "rb").read() for n in sorted(os.listdir(sib))
+                     if n != "i.nano" and os.path.isfile(os.path.join(sib, n))}
+        rec = oracle(cfg, data, extra=extra)
         print("asan build: %s   plain build: %s   first diagnostic: %s" % (rec["asan"], rec["plain"], rec["diag"]))
         for k, t in rec["events"]:
             print("EVENT %s\n  %s" % (k, t.replace("\n", "\n  ")[:1500]))
